@@ -18,6 +18,11 @@ CLAIMS = {
          "3/C19"),
 }
 
+ # (entries are added below as checks are built)
+CLAIMS["C04"] = ("symbolic column-term evaluation of the pandas pipelines (global value numbering) + template matching; finite truth table for the device-row predicate; exact regex-language (DFA) comparison",
+    "Decides that temporal breakdown instantiates the interval-union template on every path: sweep over rows sorted by ts, end=ts+dur, group=cumsum(ts >(=) cummax of previous ends), min/first start and max end per group; kernel_time/idle/compute/non_compute are that template's arithmetic over the merge of all device rows and of the COMPUTATION rows (so the parts sum to kernel_time by construction), device-row predicate is true exactly off stream -1 and reads only the stream, percentages are round(100*part/kernel_time,2), classification is the comm->memory->compute->other chain over the spec regular languages (DFA-equivalence), facade forwards its arguments. Each slot is a necessary condition; numeric results and pandas semantics themselves are not decided.",
+    "3/C04")
+
 REASON_WIP = "checker under construction in this session (see DESIGN.md section 3); not claimed until its check is committed"
 
 
